@@ -10,6 +10,19 @@ TB = ("Trusted: Coq 8.16.1 kernel + bytecode VM (vm_compute); no axioms (every t
       "correspondence on the compared inputs; Rust integer/Vec/HashMap semantics, rustc, LLVM modelled not verified. ")
 
 CLAIMED = {
+ "C01": ("Theorems C01_check (check status exact, any consistent bitboards), C01_pseudo, C01_moves_ok, C01_legal (the moves offered are exactly the "
+         "legal moves of spec/Rules.v: castling, en passant, the four promotions, pins, check evasions), C01_nodup, C01_mate_stalemate, for every "
+         "board satisfying the computable well-formedness wf_rules (proved preserved by every legal move: C03_wf_step; evaluated on every visited "
+         "position). Rules.v is coordinate-only and validated by perft. Tie: engine vs model vs Rules.v at every node of walks / probes / corpus: legal "
+         "move sets with flags, check status of both colours, attacked squares.",
+         TB + "Rules.v is the statement of the rules of chess (trusted, short, perft-validated); counters below 65535.",
+         "Coq proof (refinement of the bitboard move generator to a mailbox rules specification) + walk correspondence"),
+ "C03": ("Theorems C03_step (abs (make_move b m) = Rules.apply (abs b) (move_of m): placement, side, four rights, en-passant file, both counters), "
+         "C03_wf_step, C03_game (any game of any length, by induction), C03_remembers (the record of earlier positions is exactly the keys of the "
+         "earlier positions), C03_rights_monotone, C03_ep_iff_double_push. Two counterexamples to the first statement found by a proof agent (two kings "
+         "of one colour; castles flag off the home rank) led to the kings_ok conjunct of wf_rules. Tie: full state after every make on walks vs the model, "
+         "model vs Rules.apply at every node.",
+         TB + "counters below 65535 (u16 wrap written in the model).", "Coq proof (refinement + induction over move lists) + walk correspondence"),
  "C02": ("Theorems C02_unmake_make (unmake_move (make_move b m) = Some b for the WHOLE record incl. the record of earlier positions "
          "with multiplicity), C02_wf_preserved, C02_nested (any nesting depth/width), C02_query_pure, for every well-formed board and "
          "every move satisfying the computable precondition move_okb; hypotheses evaluated on every visited position/move. Tie: engine "
@@ -58,6 +71,14 @@ CLAIMED = {
          "value of the look-ahead game (check extension, quiescence, draws, mate distance, ply cap) and the chosen move attains it, for every "
          "window, depth, ordering, killer/cache content. Tie: cache-off searches engine vs model, and engine vs the reference V evaluated in Coq.",
          TB + "evaluation range hypothesis Inv_eval (chess: C17_value under <= 16 pieces a side).", "Coq proof (fuel induction, PVS loop contract, permutation invariance) + value correspondence"),
+ "C12": ("PARTIAL. Theorem C12_mate_in_one (arbitrary game, cache ON, ANY cache content satisfying an invariant the search maintains — so also after "
+         "earlier iterations and earlier searches of the same position): a completed iteration of any depth >= 1 chooses a mating move whenever one "
+         "exists; C12_empty_cache_ok. The first two formulations were refuted by the proof agent (vm_compute counterexamples kept in the proof file): "
+         "after a mate in one is found the remaining root moves are searched with degenerate windows and leave unsound bound entries; what protects later "
+         "iterations is the cached root move being ordered first. Clauses 2 and 3 (mate in two kept; avoidable mate in one avoided) are NOT proved with the "
+         "cache on (ply-relative mate scores blur distances); they are judged on the engine's choices by a mate oracle evaluated in Coq on the model, on "
+         "sparse positions and sequences of searches sharing the cache. Tie: engine vs model (move, score) on those sequences.",
+         TB + "key injectivity (no collisions) is a hypothesis; clauses 2-3 validated not proved.", "Coq proof of clause 1 (two-mode cache invariant) + oracle-judged correspondence for clauses 2-3"),
  "C13": ("Theorems C13_budget (for EVERY node budget, game, position, depth: every cache write is made below the budget with the flag set) and "
          "C13_over_budget_is_inert. Tie: complete cache-write traces engine vs model for every budget 1..size of the full search. PARTIAL: stop- "
          "and clock-interruptions are covered by the same code path but the theorem is stated for node budgets (the property's quantifier).",
@@ -84,9 +105,6 @@ REQUIRES = {"C02": ["proofs/BoardProofs.v"], "C04": ["proofs/BoardProofs.v"]}
 PENDING = {
  "C02": "proof file proofs/BoardProofs.v (make/unmake inverse) still being completed in this revision; the engine-vs-model unmake comparison runs inside the board correspondence",
  "C04": "proof file proofs/BoardProofs.v (key invariance) still being completed in this revision; keys are compared at every node of the board correspondence",
- "C01": "proof of the move generator against spec/Rules.v not finished in this revision; the model-vs-engine and model-vs-spec comparison already runs inside the C02-C04 correspondence (see DESIGN.md)",
- "C03": "refinement proof make_move |= Rules.apply not finished in this revision; bookkeeping is compared engine vs model vs spec on every walk (see DESIGN.md)",
- "C12": "mate-level theorems with the cache on not built yet in this revision",
 }
 
 
